@@ -188,7 +188,9 @@ template <class T> void propGraph(Ctx& c, int reps) {
     X(StepLike) X(std::vector<StepLike>) X(std::vector<std::shared_ptr<StepLike>>) \
     X(Opm::ScheduleState::ptr_member<Rec>) X(std::vector<Opm::ScheduleState::ptr_member<std::string>>) \
     X(Opm::ScheduleState::map_member<std::string, NamedRec>) X(std::vector<Opm::ScheduleState::map_member<std::string, NamedRec>>) \
-    X(RealStep) X(std::vector<RealStep>)
+    X(RealStep) X(std::vector<RealStep>) \
+    X(std::unique_ptr<std::shared_ptr<int>>) X(std::vector<std::unique_ptr<WellLike>>) X(std::array<std::shared_ptr<std::string>, 3>) \
+    X(std::pair<std::array<std::shared_ptr<Rec>, 2>, std::unique_ptr<std::array<std::shared_ptr<Rec>, 2>>>)
 
 // The menu of real C++ types.
 
